@@ -1,9 +1,11 @@
 import SophiaModel.Basic.Proto
 import SophiaModel.Model.Iso
+import SophiaModel.Model.IsoOracle
 import SophiaModel.Gen.IsoVariant
 
 namespace SophiaModel.Driver.C07
 open SophiaModel Proto Iso
+open SophiaModel.IsoOracle (certOk groundDiffers wfQ)
 
 /-- quads up to the next `|` (or the end) -/
 def parseQuads : Nat → List String → Option (List Quad × List String)
@@ -23,40 +25,6 @@ def parseBeta (s : String) : Option (List (Str × Str)) :=
     | [a, b] => do let x ← charsOfHex a; let y ← charsOfHex b; pure (x, y)
     | _ => none)
 
-def relabelT (β : List (Str × Str)) : Term → Term
-  | .bnode b => .bnode ((β.lookup b).getD b)
-  | .triple s p o => .triple (relabelT β s) (relabelT β p) (relabelT β o)
-  | t => t
-
-def mapQ (f : Term → Term) (q : Quad) : Quad := ⟨f q.s, f q.p, f q.o, q.g.map f⟩
-
-/-- language tags folded (`Term::eq` ignores their case) -/
-def normT : Term → Term
-  | .lang l t => .lang l (foldTag t)
-  | .triple s p o => .triple (normT s) (normT p) (normT o)
-  | t => t
-
-/-- every blank node label replaced by the empty one, at any depth -/
-def blankT : Term → Term
-  | .bnode _ => .bnode []
-  | .triple s p o => .triple (blankT s) (blankT p) (blankT o)
-  | t => t
-
-def labels (D : List Quad) : List Str := (D.flatMap quadBnodes).eraseDups
-
-/-- the request carries a certificate of isomorphism: `β` is injective on the labels of `D1` and `D2` is a
-permutation of `β(D1)` (up to `Term::eq`) -/
-def certOk (β : List (Str × Str)) (D1 D2 : List Quad) : Bool :=
-  let ls := labels D1
-  let img := ls.map (fun b => (β.lookup b).getD b)
-  img.eraseDups.length == ls.length &&
-  ((D1.map (mapQ (relabelT β))).map (mapQ normT)).isPerm (D2.map (mapQ normT))
-
-/-- the property's three "must be false" conditions, computed without the model's gates -/
-def groundDiffers (D1 D2 : List Quad) : Bool :=
-  D1.length != D2.length || (labels D1).length != (labels D2).length ||
-  !((D1.map (mapQ (fun t => normT (blankT t)))).isPerm (D2.map (mapQ (fun t => normT (blankT t)))))
-
 def fuel : Nat := 256
 
 def handle (line : String) : String :=
@@ -68,14 +36,20 @@ def handle (line : String) : String :=
       | some (D2, []) =>
         let deep := Gen.IsoVariant.deep
         let srt := isort deep
+        -- the three gates one by one (diagnostics); `sg && zg && bg` is `gates deep srt D1 D2` unfolded, with
+        -- the two sorts shared (theorem `gates_unfold` in Props/C07.lean)
+        let s1 := srt D1
+        let s2 := srt D2
         let sg := sizeGate D1 D2
-        let zg := zipGate deep (srt D1) (srt D2)
-        let bg := bcountGate (makeB2q (srt D1)) (makeB2q (srt D2))
-        let g := gates deep srt D1 D2
+        let zg := zipGate deep s1 s2
+        let bg := bcountGate (makeB2q s1) (makeB2q s2)
+        let g := sg && zg && bg
         let adv := iso deep srt mixHash fuel D1 D2
         let advS := match adv with | some true => "1" | some false => "0" | none => "fuel"
+        -- the oracle (Model/IsoOracle.lean; `certOk_sound` / `groundDiffers_sound` in Props/C07.lean)
         let cert := certOk β D1 D2
         let gd := groundDiffers D1 D2
+        let wf := D1.all wfQ
         -- the implementation's answer is determined (for every hash function) when a gate fails, and when
         -- the pair is a certified relabelling (theorems iso_false_*, iso_relabel*).  Otherwise it is what colour
         -- refinement computes: a function of the structure alone unless two different event traces collide in
@@ -85,7 +59,7 @@ def handle (line : String) : String :=
         reply ([kvN "n1" D1.length, kvN "n2" D2.length, kvB "size_gate" sg, kvB "zip_gate" zg,
                 kvB "bcount_gate" bg, kvB "gates" g, kv "adv_iso" advS, kvB "cert" cert, kvB "ground_differs" gd]
                ++ [kv "iso" (if !g then "0" else advS)]
-               ++ (if cert then [kv "o.iso" "1"] else if gd then [kv "o.iso" "0"] else []))
+               ++ (if cert && wf then [kv "o.iso" "1"] else if gd then [kv "o.iso" "0"] else []))
       | _ => "bad-op"
     | _, _ => "bad-op"
   | _ => "bad-op"
